@@ -382,7 +382,7 @@ macro_rules! parts {
             sys: &Sys,
             cfgs: vec![Cfg::new(1, 1, Some(0))],
             alphabet: &token_alphabet,
-            depth: tier.pick(7, 10),
+            depth: tier.pick(8, 10),
             seconds: tier.pick(30.0, 2400.0),
             validated: true,
             nontrivial: Some("parser_steps"),
